@@ -18,7 +18,7 @@ func refDomainRule(email, d string) bool {
 	return vOr(exact, dot, star)
 }
 
-// verif: unwind=6 concretize=4
+// verif: unwind=6 concretize=4 tstrlen=12
 func vh_C08_email() {
 	email := ndString("email")
 	n := 1 + ndChoice("ndomains", 2)
